@@ -18,7 +18,7 @@ func init() {
 			"and within 0.9*FailedUpdateTTL of a failed build no builder invocation for the key, errors served are the cached one; (b) sequential scripts of 6 Gets with the failing invocation at every position x FailedUpdateTTL {default,1h,-1} " +
 			"x entry state, judged against a small executable model (exact build count and result of every Get); (c) failure-cache entry expiry bracket [tb+0.95T, ta+1.05T] and rebuild after Errors.ExpireAll; " +
 			"distinct_nontrivial = distinct (config, schedule signature) of family-(a) runs with >=2 overlapping Gets on one key plus distinct family-(b) cells",
-		Required:    []string{"a.runs", "a.success_then_quiet.checked", "a.bursts.one_build", "a.suppression.checked", "b.sequences", "b.reexpire_sequences", "b.past_update_ttl_sequences", "b.default_backend_sequences", "b.gets_with_done_context", "b.gets", "c.expiry.checked", "c.rebuild_after_elapse.checked", "api.Failover", "api.FailoverOf"},
+		Required:    []string{"a.runs", "a.success_then_quiet.checked", "a.bursts.one_build", "a.suppression.checked", "b.sequences", "b.reexpire_sequences", "b.past_update_ttl_sequences", "b.default_backend_sequences", "b.gets_with_done_context", "b.sequences_with_notfound_builder_error", "b.gets", "c.expiry.checked", "c.rebuild_after_elapse.checked", "api.Failover", "api.FailoverOf", "b.sequences_with_notfound_builder_error"},
 		Assumptions: []string{"suppression window is judged only for events whose monotonic timestamps lie within 0.9*FailedUpdateTTL of the failure (sound under load)", "without SyncRead redundant sequential builds are documented behaviour and only counted"},
 		Timeout:     func(string) time.Duration { return 45 * time.Minute },
 	})
@@ -288,7 +288,13 @@ func c05Sequential(b *Batch, idx int, rng *rand.Rand) {
 	if state != "absent" {
 		prepop = r.prepopulate(rng, 0, state)
 	}
-	r.script = func(_ int, inv int) buildOutcome { return buildOutcome{OK: inv < failFrom || inv >= failFrom+failLen} }
+	errKind := rng.Intn(3) // what the failing builder returns: a plain error, one wrapping context.Canceled, one wrapping cache.ErrNotFound
+	r.script = func(_ int, inv int) buildOutcome {
+		return buildOutcome{OK: inv < failFrom || inv >= failFrom+failLen, CtxErr: errKind == 1, NotFound: errKind == 2}
+	}
+	if errKind == 2 {
+		b.R.Count("b.sequences_with_notfound_builder_error", 1)
+	}
 	fut := futOf(cfg)
 	// model
 	type mres struct {
